@@ -848,7 +848,7 @@ func (c *FnCtx) execIndexAddr(bc *blockCtx, x *ssa.IndexAddr) {
 			return
 		}
 		c.safety("index", bc.reach, fmt.Sprintf("(and (<= 0 %s) (< %s %s))", idx.T, idx.T, base.Fs[2].T), x.Pos())
-		fr.regs[x] = Val{K: KLoc, Ty: x.Type(), Loc: &Loc{Kind: LElem, Base: base.Fs[0].T, Root: bt.Elem(), Idx: "(+ " + base.Fs[1].T + " " + idx.T + ")", Ty: bt.Elem()}}
+		fr.regs[x] = Val{K: KLoc, Ty: x.Type(), Loc: &Loc{Kind: LElem, Base: base.Fs[0].T, Root: bt.Elem(), Idx: "(idx " + base.Fs[1].T + " " + idx.T + ")", Ty: bt.Elem()}}
 	case *types.Pointer: // pointer to array
 		at := bt.Elem().Underlying().(*types.Array)
 		c.safety("index", bc.reach, fmt.Sprintf("(and (<= 0 %s) (< %s %d))", idx.T, idx.T, at.Len()), x.Pos())
